@@ -129,7 +129,13 @@ class TableSim:
         return any(self._collides(o, self.objs[m]) for m in self.members if self.objs[m] is not o)
 
     def apply(self, op):
-        """Return (label, problem|None)."""
+        """Return (label, problem|None); an exception no reference-model rule expects is a problem, not a harness error."""
+        try:
+            return self._apply(op)
+        except Exception as ex:  # noqa: BLE001
+            return f'{op[0]}-raised', f'{".".join(map(str, op))} raised {type(ex).__name__}: {str(ex)[:80]}'
+
+    def _apply(self, op):
         kind = op[0]
         t = self.table
         if kind == 'add':
